@@ -316,6 +316,11 @@ def forest(which, kind, V=None):
         sx.check(sorted(nodes) == list(range(N)), "a forest covers every element exactly once" + tag, detail=str(nodes))
         sx.check(len(set(comp_of[r] for r in F.roots)) == len(F.roots), "forest roots lie in distinct components" + tag)
         sx.check(len(F.edges) == N - len(comps), "forest has one fewer edge than elements per component" + tag)
+        # reading the forest is an observation: a second read gives the same edges and the trees keep their own
+        first, second = [tuple(e) for e in F.edges], [tuple(e) for e in F.edges]
+        sx.check(first == second and sum(len(t.edges) for t in F.trees) == N - len(comps),
+                 "reading a forest's edges twice gives the same list and leaves its trees unchanged" + tag,
+                 detail="%s then %s; per tree %s" % (first, second, [len(t.edges) for t in F.trees]))
     return h
 
 
